@@ -48,7 +48,30 @@ where
         panic!("{ITER_INCONSISTENT_MSG}: last() == {last:?} but the last item next() yields is {:?}", v.last());
     }
     let _ = mk().size_hint();
-    let _ = mk().nth(1);
+    // nth() on a partly consumed iterator (also what skip() and step_by() are built on): one probe per call,
+    // its position derived from the length so that different positions are hit across the workload
+    if v.len() >= 3 {
+        let j = 1 + v.len() % 2;
+        let k = 1 + v.len() % 3;
+        if j + k < v.len() {
+            let mut it = mk();
+            for _ in 0..j {
+                let _ = it.next();
+            }
+            let got = it.nth(k).map(|x| format!("{x:?}"));
+            let want = Some(format!("{:?}", v[j + k]));
+            if got != want {
+                panic!("{ITER_INCONSISTENT_MSG}: after {j} items nth({k}) == {got:?} but next() would yield {want:?}");
+            }
+            let rest: Vec<String> = drain(it, bound).iter().map(|x| format!("{x:?}")).collect();
+            let want_rest: Vec<String> = v[j + k + 1..].iter().map(|x| format!("{x:?}")).collect();
+            if rest != want_rest {
+                panic!("{ITER_INCONSISTENT_MSG}: after nth() the iterator continues with {} items, next() alone yields {} more", rest.len(), want_rest.len());
+            }
+        }
+    } else {
+        let _ = mk().nth(1);
+    }
     v
 }
 
